@@ -333,4 +333,180 @@ def decoratedCalls (t : Table) (w : World) (c : Nat) (key : List Nat) : Nat → 
   | 0, st => some st
   | n + 1, st => (decoratedCall t w c key st).bind (decoratedCalls t w c key n)
 
+/-! ### Overlapping calls of a decorated function
+
+`DecoratorsWrapper._wrap` (cashews/wrapper/decorators.py) for `@cache(ttl, key=..., protected=p)`:
+```
+thunder_protection = decorators.thunder_protection(key=...) if protected else (lambda f: f)
+async def _call(*args, **kwargs):
+    self._check_setup()
+    if self.is_full_disable: return await func(*args, **kwargs)      # OUTSIDE thunder_protection
+    return await thunder_protection(decorator)(*args, **kwargs)
+```
+and `thunder_protection` (cashews/decorators/locked.py):
+```
+_key = get_cache_key(func, _key_template, args, kwargs)
+if _key in tasks: return await asyncio.shield(tasks[_key])         # join the call in flight
+task = asyncio.create_task(func(*args, **kwargs)); tasks[_key] = task   # removed again when done
+return await asyncio.shield(task)
+```
+Several calls are in flight at once; an execution of the body is suspended until the environment
+lets it finish (`CEv.finish`).  Executions are numbered in the order they start; the outcome of a
+call is the number of the execution whose result it is handed.  Control operations may happen in
+between; a call sees the control state of its context at the moment it starts (the task that runs
+it holds a copy of that context, A3; sets of disabled commands are replaced, never mutated). -/
+
+/-- what a call in flight is doing -/
+inductive Role where
+  /-- `if self.is_full_disable: return await func(...)`: runs execution `e` of the body; it is not
+  registered anywhere and no backend is involved -/
+  | bypass (e : Nat)
+  /-- inside the cache decorator after a miss: runs execution `e`.  `joinable`: it is the task that
+  `thunder_protection` holds under the key.  `setTo`: the backend that is handed `set(key, result)`
+  when the body returns (`none`: SET is disabled for it) -/
+  | own (e : Nat) (joinable : Bool) (setTo : Option Nat)
+  /-- `if _key in tasks: return await asyncio.shield(tasks[_key])`: waits for the call `leader` -/
+  | joined (leader : Nat)
+  deriving DecidableEq, Repr
+
+/-- the execution a call in flight is running itself -/
+def Role.exec? : Role → Option Nat
+  | .bypass e => some e
+  | .own e _ _ => some e
+  | .joined _ => none
+
+structure Flight where
+  call : Nat
+  key : List Nat
+  role : Role
+  deriving DecidableEq, Repr
+
+/-- a function decorated with `@cache(ttl, key=<template>, protected=p)` with calls in flight -/
+structure CSt where
+  /-- cache key ↦ the execution whose result an earlier call stored (most recent first) -/
+  cached : List (List Nat × Nat)
+  /-- how many executions of the body have started -/
+  execs : Nat
+  flights : List Flight
+  /-- finished calls: call ↦ the execution whose outcome the caller was handed -/
+  results : List (Nat × Nat)
+  /-- backend commands issued by the facade -/
+  calls : List Call
+  /-- calls that ended in `NotConfiguredError` -/
+  nc : List Nat
+  deriving Repr
+
+def CSt.init : CSt := ⟨[], 0, [], [], [], []⟩
+
+def lookupKey (k : List Nat) : List (List Nat × Nat) → Option Nat
+  | [] => none
+  | (k', e) :: r => if k' = k then some e else lookupKey k r
+
+/-- the call in flight that `thunder_protection` holds under `key` -/
+def findLeader (key : List Nat) : List Flight → Option Flight
+  | [] => none
+  | f :: r =>
+    match f.role with
+    | .own _ true _ => if f.key = key then some f else findLeader key r
+    | _ => findLeader key r
+
+/-- the cache decorator proper, `b` = backend of the key:
+`cached = await backend.get(key, default=_empty)`; hit → return it; miss → run the body, then
+`await backend.set(key, result, expire=ttl)` (each through the disable middleware) -/
+def cstartOn (prot : Bool) (s : CSt) (call : Nat) (key : List Nat) (b : Nat) (getOn setOn : Bool) : CSt :=
+  match (if getOn then lookupKey key s.cached else none) with
+  | some e =>
+    { s with calls := if getOn then s.calls ++ [⟨.raw b, .get, [key]⟩] else s.calls
+             results := s.results ++ [(call, e)] }
+  | none =>
+    { s with calls := if getOn then s.calls ++ [⟨.raw b, .get, [key]⟩] else s.calls
+             execs := s.execs + 1
+             flights := s.flights ++ [⟨call, key, .own s.execs prot (if setOn then some b else none)⟩] }
+
+/-- a call `call` of the decorated function starts in context `ctx`; `key` is its cache key -/
+def cstart (t : Table) (prot : Bool) (w : World) (s : CSt) (call ctx : Nat) (key : List Nat) : CSt :=
+  if t.regs.isEmpty then { s with nc := s.nc ++ [call] }                    -- `_check_setup()`
+  else if facadeFullDisable t w ctx then
+    { s with execs := s.execs + 1, flights := s.flights ++ [⟨call, key, .bypass s.execs⟩] }
+  else
+    match (if prot then findLeader key s.flights else none) with
+    | some l => { s with flights := s.flights ++ [⟨call, key, .joined l.call⟩] }
+    | none =>
+      match t.getBackend key with
+      | none => { s with nc := s.nc ++ [call] }
+      | some b => cstartOn prot s call key b (!isDisable w ctx b [.get]) (!isDisable w ctx b [.set])
+
+/-- the first flight of call `call`, and the others -/
+def takeFlight (call : Nat) : List Flight → Option (Flight × List Flight)
+  | [] => none
+  | f :: r =>
+    if f.call = call then some (f, r)
+    else match takeFlight call r with
+      | none => none
+      | some (g, r') => some (g, f :: r')
+
+/-- the body executed by call `call` returns (a call that runs no body of its own: nothing happens) -/
+def cfinish (s : CSt) (call : Nat) : CSt :=
+  match takeFlight call s.flights with
+  | none => s
+  | some (f, rest) =>
+    match f.role with
+    | .joined _ => s
+    | .bypass e => { s with flights := rest, results := s.results ++ [(call, e)] }
+    | .own e _ setTo =>
+      { s with
+        flights := rest.filter fun g => g.role ≠ .joined call
+        cached := match setTo with
+          | some _ => (f.key, e) :: s.cached
+          | none => s.cached
+        calls := match setTo with
+          | some b => s.calls ++ [⟨.raw b, .set, [f.key]⟩]
+          | none => s.calls
+        results := s.results ++ [(call, e)] ++
+          (rest.filter fun g => g.role = .joined call).map fun g => (g.call, e) }
+
+inductive CEv where
+  /-- `asyncio.create_task(f(arg))` by a task running in context `ctx`; `key` = cache key of `arg` -/
+  | start (call ctx : Nat) (key : List Nat)
+  /-- the body that call `call` is executing returns -/
+  | finish (call : Nat)
+  /-- a control operation in between -/
+  | ctl (op : CtlOp)
+  deriving Repr
+
+structure CRun where
+  w : World
+  s : CSt
+
+def cstep (t : Table) (prot : Bool) (r : CRun) : CEv → CRun
+  | .start call ctx key => { r with s := cstart t prot r.w r.s call ctx key }
+  | .finish call => { r with s := cfinish r.s call }
+  | .ctl op => { r with w := (ctlStep t r.w op).1 }
+
+def crun (t : Table) (prot : Bool) (r : CRun) (evs : List CEv) : CRun :=
+  evs.foldl (cstep t prot) r
+
+/-- let every body still running return, oldest call first -/
+def cdrainN : Nat → CSt → CSt
+  | 0, s => s
+  | n + 1, s =>
+    match s.flights with
+    | [] => s
+    | f :: _ => cdrainN n (cfinish s f.call)
+
+def cdrain (s : CSt) : CSt := cdrainN s.flights.length s
+
+/-- the calls started by an event list, in order -/
+def CEv.starts : List CEv → List Nat
+  | [] => []
+  | .start call _ _ :: r => call :: CEv.starts r
+  | _ :: r => CEv.starts r
+
+/-- every call of the event list starts in a context that sees the cache fully disabled at that moment -/
+def AllStartsFull (t : Table) : World → List CEv → Prop
+  | _, [] => True
+  | w, .start _ ctx _ :: r => facadeFullDisable t w ctx = true ∧ AllStartsFull t w r
+  | w, .finish _ :: r => AllStartsFull t w r
+  | w, .ctl op :: r => AllStartsFull t (ctlStep t w op).1 r
+
 end CashewsVerif.Disable
